@@ -62,7 +62,7 @@ def empty_ok(start: int, stop: int, tc: int, rpc: int) -> bool:
 
 
 def _plain_attr(v):
-    if v is None or isinstance(v, SCALARS) or isinstance(v, (np.generic,)):
+    if isinstance(v, SCALARS) or isinstance(v, (np.generic,)):
         return True
     if isinstance(v, (list, tuple)):
         ok = True
@@ -132,4 +132,20 @@ def types_ok(x: int, vi: int) -> bool:
 
         tokdoc = T.with_tokens(doc, paths, values)
     group = v["transform"](tokdoc)
-    return _walk(group)
+    ok = _walk(group)
+    # the same walk with EVERY integer field of the document blank (-1) or zero, also the flag / count / code fields whose values do not
+    # reach the tree by identity (kept concrete above): a blank flag or count must not turn a variable or attribute into None / object
+    for fillv in (-1, 0):
+        with PS.no_tracing():
+            try:
+                alldoc = T.with_tokens(doc, paths, [fillv] * len(paths))
+            except Exception:  # noqa: BLE001
+                alldoc = None
+        if alldoc is None:
+            continue
+        try:
+            g2 = v["transform"](alldoc)
+        except Exception:  # noqa: BLE001 - a structure-driving field (count, code) cannot take this value: not a typing question
+            continue
+        ok = ok & _walk(g2)
+    return ok
